@@ -148,18 +148,25 @@ PairLawsZ(pa, pb, s) ==
 
 \* the limb laws are checked on every pair (ZStride = 1, thorough) or on every pair that touches a boundary
 \* pattern plus one pair in ZStride (quick)
-Edge8 == {0, 1, 2, 3, 126, 127, 128, 129, 130, 253, 254, 255}
+Edge8 == {0, 1, 2, 127, 128, 129, 254, 255}
 ZPair(pa, pb) == ZStride = 1 \/ pa \in Edge8 \/ pb \in Edge8 \/ (pa + 5 * pb) % ZStride = 0
 
 \* mixed signedness: comparing the exact values is what cmp_* must return
 MixedLaws(pa, pb) ==
     LET u == ValOf(pa, 8, 0) i == ValOf(pb, 8, 1) IN
+    /\ ExpI([op |-> "cmp", x |-> u, y |-> i, w |-> 8, s |-> 0, w2 |-> 8, s2 |-> 1]).v
+         = <<u = i, u # i, u < i, u <= i, u > i, u >= i>>
+    \* a 16-bit word made of the two bytes: byteswap exchanges them and is an involution
+    /\ LET x == BitsOfNat(pa + 256 * pb, 16) IN
+          /\ NatOfBits(Byteswap(x)) = pb + 256 * pa /\ Byteswap(Byteswap(x)) = x
+
+\* the same through the limb integers; the limb view of a word round-trips
+MixedLawsZ(pa, pb) ==
+    LET u == ValOf(pa, 8, 0) i == ValOf(pb, 8, 1) IN
     /\ W!ZCmp(ZVal(u, 8, 0), ZVal(i, 8, 1)) = (IF u < i THEN -1 ELSE IF u = i THEN 0 ELSE 1)
     /\ ExpI([op |-> "cmp", x |-> u, y |-> i, w |-> 8, s |-> 0, w2 |-> 8, s2 |-> 1]).v
          = ExpZ([op |-> "cmp", x |-> u, y |-> i, w |-> 8, s |-> 0, w2 |-> 8, s2 |-> 1]).v
-    \* a 16-bit word made of the two bytes: byteswap exchanges them and is an involution; limb view round-trips
     /\ LET x == BitsOfNat(pa + 256 * pb, 16) IN
-          /\ NatOfBits(Byteswap(x)) = pb + 256 * pa /\ Byteswap(Byteswap(x)) = x
           /\ BitsOfLimbs(<<pa + 256 * pb, pb + 256 * pa>>, 32) = x \o Byteswap(x)
           /\ LimbsOfBits(x \o Byteswap(x)) = <<pa + 256 * pb, pb + 256 * pa>>
           /\ Byteswap(x \o Byteswap(x)) = x \o Byteswap(x)
@@ -189,7 +196,7 @@ EmbedLaws(pa, pb) ==
 Laws == IF b = Unset THEN (mode = "pair" => UnaryLaws(a))
         ELSE IF mode = "rot" THEN RotLaws(a, b)
         ELSE /\ PairLawsS(a, b, 0) /\ PairLawsS(a, b, 1) /\ MixedLaws(a, b)
-             /\ (ZPair(a, b) => PairLawsZ(a, b, 0) /\ PairLawsZ(a, b, 1) /\ EmbedLaws(a, b))
+             /\ (ZPair(a, b) => PairLawsZ(a, b, 0) /\ PairLawsZ(a, b, 1) /\ MixedLawsZ(a, b) /\ EmbedLaws(a, b))
 
 \* ---- GEN: one JSON line per input --------------------------------------------------------------------
 EmitInv == IF b = Unset THEN (mode = "pair" => PrintT(<<"GEN", ToJson([m |-> "un", a |-> a])>>))
